@@ -816,5 +816,40 @@ def model_glass(ctx):
     return res
 
 
-RULES = [no_stale, model_glass, formula_law, formula_dispatch, arity, lookup_literal, abbe,
+def exact_name_first(ctx):
+    """'looking a material up by a name that matches a catalogue entry exactly
+    returns an entry with exactly that name': the ranking must put an entry
+    whose own name is the query before entries that merely belong to a
+    category of that name"""
+    from ..match import find
+    P = ctx.P
+    res = Result('EXACT-NAME-FIRST', 'among the rows that survive the filters '
+                 'a row whose own name equals the query ranks first')
+    f = P.func('Material._find_material_matches')
+    res.saw(f)
+    mins = [c for c in ast.walk(f.node) if isinstance(c, ast.Call) and
+            unparse(c.func) == 'min' and 'category_name' in unparse(c) and
+            "row['name']" in unparse(c)]
+    tie = [c for c in ast.walk(f.node) if isinstance(c, ast.Call) and
+           isinstance(c.func, ast.Attribute) and c.func.attr == 'sort_values']
+    by_two = any(isinstance(k.value, (ast.List, ast.Tuple)) and
+                 len(k.value.elts) >= 2 for c in tie for k in c.keywords
+                 if k.arg == 'by')
+    promoted = 'name_score' in unparse(f.node) or by_two
+    if mins and not promoted:
+        res.fail(ctx.finding(
+            'EXACT-NAME-FIRST', f, mins[0],
+            'the similarity score is min(distance to the category name, '
+            'distance to the entry name) and nothing breaks ties: a row that '
+            'matches only through its category ranks with (and can be '
+            'returned before) the row whose name is the query - '
+            "Material('SF6') returns the sulphur hexafluoride gas, 'BAF2' "
+            "the BaF2 crystal, ('SF5', 'schott') N-SF5",
+            construct='category match ties with exact name'))
+    else:
+        res.ok('exact-name rows rank first')
+    return res
+
+
+RULES = [exact_name_first, no_stale, model_glass, formula_law, formula_dispatch, arity, lookup_literal, abbe,
          elementwise]
